@@ -119,14 +119,18 @@ theorem selV_zip (ws vs : List Rat) (sel : List Nat) (h : ws.length = vs.length)
   intro i _
   rw [getD_zip_pair ws vs i h]
 
-/-- the hypotheses on the literals of `knapsack.py` under which the exact-arithmetic statements hold;
-the source's values satisfy all of them except `scaleTol = 0` (it is `1e-9`: float noise) -/
-structure ExactConsts (c : KConsts Rat) : Prop where
-  scaleTol : c.scaleTol = 0
+/-- hypotheses on the literals of `knapsack.py` that the source's values satisfy -/
+structure GoodConsts (c : KConsts Rat) : Prop where
   one : c.one = 1
   maxCapacity : 0 < c.maxCapacity
   maxScale : 0 < c.maxScale
   weightTol : 0 ≤ c.weightTol
+  scaleTolNonneg : 0 ≤ c.scaleTol
+
+/-- ... plus a zero scaling tolerance (the source has `1e-9`, to absorb float noise): the
+hypotheses of the exact-arithmetic statements -/
+structure ExactConsts (c : KConsts Rat) : Prop extends GoodConsts c where
+  scaleTol : c.scaleTol = 0
 
 theorem toIntCapacity_scale_pos (c : KConsts Rat) (hc : ExactConsts c) (cap : Rat) (wts : List Rat) :
     0 < (toIntCapacity ratOps c cap wts).2 := by
@@ -208,5 +212,138 @@ theorem feasible_zip_congr (wts vs vs' : List Rat) (cap : Rat) (sel : List Nat)
   constructor
   · intro h; exact ⟨h.nodup, by rw [← l1]; exact h.inRange, by rw [← e]; exact h.fits⟩
   · intro h; exact ⟨h.nodup, by rw [l1]; exact h.inRange, by rw [e]; exact h.fits⟩
+
+theorem rat_abs_le {a t : Rat} (h : ratOps.le (ratOps.abs a) t = true) : -t ≤ a ∧ a ≤ t := by
+  have h' : (if a < 0 then -a else a) ≤ t := by simpa [ratOps] using h
+  split at h' <;> grind
+
+theorem scaled_near (c : KConsts Rat) (x scale : Rat)
+    (h : (scaled ratOps c x scale).2 = true) :
+    -c.scaleTol ≤ x * scale - (((scaled ratOps c x scale).1 : Nat) : Rat) ∧
+    x * scale - (((scaled ratOps c x scale).1 : Nat) : Rat) ≤ c.scaleTol := by
+  unfold scaled at h ⊢
+  simp only at h ⊢
+  split
+  · rename_i hle
+    exact rat_abs_le hle
+  · rename_i hle
+    rw [if_neg hle] at h
+    cases h
+
+theorem nodup_range_length : ∀ (n : Nat) (sel : List Nat), sel.Nodup → (∀ i ∈ sel, i < n) → sel.length ≤ n := by
+  intro n
+  induction n with
+  | zero =>
+    intro sel _ hr
+    cases sel with
+    | nil => simp
+    | cons i s => exact absurd (hr i List.mem_cons_self) (by simp)
+  | succ n ih =>
+    intro sel hnd hr
+    by_cases hm : n ∈ sel
+    · obtain ⟨_, hnd', hr'⟩ := sel_split hnd hr hm
+      have := ih _ hnd' hr'
+      rw [List.length_erase_of_mem hm] at this
+      omega
+    · have := ih sel hnd (sel_lt_of_not_mem hr hm)
+      omega
+
+
+theorem scaled_sums_near (items : List (Rat × Rat)) (scale τ : Rat) (iw : List Nat) (hlen : iw.length = items.length)
+    (hw : ∀ i, i < items.length → -τ ≤ (items.getD i (0, 0)).1 * scale - ((iw.getD i 0 : Nat) : Rat) ∧
+      (items.getD i (0, 0)).1 * scale - ((iw.getD i 0 : Nat) : Rat) ≤ τ) :
+    ∀ sel : List Nat, (∀ i ∈ sel, i < items.length) →
+      -((sel.length : Nat) * τ) ≤ selW items sel * scale - ((selWN (iw.zip (items.map (·.2))) sel : Nat) : Rat) ∧
+      selW items sel * scale - ((selWN (iw.zip (items.map (·.2))) sel : Nat) : Rat) ≤ (sel.length : Nat) * τ ∧
+      selVN (iw.zip (items.map (·.2))) sel = selV items sel := by
+  intro sel
+  induction sel with
+  | nil => intro _; simp [selWN, selVN, selW, selV]; exact ⟨by grind, by grind⟩
+  | cons i s ih =>
+    intro h
+    have hi := h i List.mem_cons_self
+    obtain ⟨a1, a2, b⟩ := ih (fun j hj => h j (List.mem_cons_of_mem _ hj))
+    obtain ⟨w1, w2⟩ := hw i hi
+    have e := getD_zip_items iw (items.map (·.2)) i (by omega) (by simpa using hi)
+    have e2 : (items.map (·.2)).getD i 0 = (items.getD i (0, 0)).2 := by
+      simp [List.getD_eq_getElem?_getD, hi]
+    have el : (((i :: s).length : Nat) : Rat) = (s.length : Nat) + 1 := by simp
+    rw [selWN_cons, selVN_cons, selW_cons, selV_cons, e, Rat.natCast_add, b, e2, el]
+    refine ⟨by grind, by grind, rfl⟩
+
+theorem toIntCapacity_scale_pos' (c : KConsts Rat) (hc : GoodConsts c) (cap : Rat) (wts : List Rat) :
+    0 < (toIntCapacity ratOps c cap wts).2 := by
+  unfold toIntCapacity
+  split
+  · simp only [hc.one]; decide
+  · split
+    · simp only [hc.one]; decide
+    · rename_i h
+      have hcap : 0 < cap := by
+        have : ¬ cap ≤ 0 := by simpa [ratOps] using h
+        grind
+      simp only
+      unfold pyMin
+      split
+      · exact hc.maxScale
+      · show 0 < c.maxCapacity / cap
+        rw [Rat.div_def]; exact Rat.mul_pos hc.maxCapacity (Rat.inv_pos.2 hcap)
+
+theorem toIntCapacity_near (c : KConsts Rat) (hc : GoodConsts c) (cap : Rat) (hcap : 0 ≤ cap) (wts : List Rat)
+    (h : (scaled ratOps c cap (toIntCapacity ratOps c cap wts).2).2 = true) :
+    -c.scaleTol ≤ cap * (toIntCapacity ratOps c cap wts).2 - (((toIntCapacity ratOps c cap wts).1 : Nat) : Rat) ∧
+    cap * (toIntCapacity ratOps c cap wts).2 - (((toIntCapacity ratOps c cap wts).1 : Nat) : Rat) ≤ c.scaleTol := by
+  have hτ := hc.scaleTolNonneg
+  unfold toIntCapacity at h ⊢
+  split
+  · rename_i hall
+    have hi : ratOps.isInt cap = true := List.all_eq_true.1 hall cap List.mem_cons_self
+    have hfl : ((cap.floor : Int) : Rat) = cap := by simpa [ratOps] using hi
+    have h0 : 0 ≤ cap.floor := by
+      have : ((0 : Int) : Rat) ≤ cap := by simpa using hcap
+      exact Rat.le_floor_iff.2 this
+    have e : (((cap.floor.toNat : Nat)) : Rat) = cap := by
+      rw [← Rat.intCast_natCast, Int.toNat_of_nonneg h0, hfl]
+    show -c.scaleTol ≤ cap * c.one - ((cap.floor.toNat : Nat) : Rat) ∧ cap * c.one - ((cap.floor.toNat : Nat) : Rat) ≤ c.scaleTol
+    rw [hc.one, e]
+    exact ⟨by grind, by grind⟩
+  · split
+    · rename_i hle
+      have : cap ≤ 0 := by simpa [ratOps] using hle
+      have : cap = 0 := by grind
+      subst this
+      simp only [Rat.zero_mul]
+      exact ⟨by simp; grind, by simp; grind⟩
+    · rename_i hall hle
+      rw [if_neg hall, if_neg hle] at h
+      exact scaled_near c _ _ h
+
+theorem scaleWeights_near (c : KConsts Rat) (hc : GoodConsts c) (wts : List Rat) (hw : ∀ w ∈ wts, 0 ≤ w)
+    (scale : Rat) (h : (scaleWeights ratOps c wts scale).all (·.2) = true) :
+    ∀ i, i < wts.length →
+      -c.scaleTol ≤ wts.getD i 0 * scale - ((((scaleWeights ratOps c wts scale).map (·.1)).getD i 0 : Nat) : Rat) ∧
+      wts.getD i 0 * scale - ((((scaleWeights ratOps c wts scale).map (·.1)).getD i 0 : Nat) : Rat) ≤ c.scaleTol := by
+  intro i hi
+  have hτ := hc.scaleTolNonneg
+  have hget : wts.getD i 0 = wts[i] := by simp [List.getD_eq_getElem?_getD, hi]
+  have hmem : wts[i] ∈ wts := List.getElem_mem hi
+  unfold scaleWeights at h ⊢
+  have hall := List.all_eq_true.1 h _ (List.mem_map.2 ⟨wts[i], hmem, rfl⟩)
+  have key : ∀ (f : Rat → Nat × Bool), ((wts.map f).map (·.1)).getD i 0 = (f wts[i]).1 := by
+    intro f; simp [List.getD_eq_getElem?_getD, hi]
+  rw [key, hget]
+  by_cases hpos : ratOps.lt ratOps.zero wts[i] = true
+  · simp only [hpos, if_true] at hall ⊢
+    simp only [Bool.and_eq_true, decide_eq_true_eq] at hall
+    have := scaled_near c wts[i] scale hall.1
+    rw [Nat.max_eq_right hall.2]
+    exact this
+  · simp only [hpos, Bool.false_eq_true, if_false]
+    have : ¬ (0 : Rat) < wts[i] := by simpa [ratOps] using hpos
+    have h0 := hw _ hmem
+    have : wts[i] = 0 := by grind
+    rw [this]
+    simp only [Rat.zero_mul]
+    exact ⟨by simp; grind, by simp; grind⟩
 
 end Solvor.Pack
